@@ -254,3 +254,67 @@ pub fn attach_loop(img: &Path, dir: &Path) -> Option<(String, PathBuf)> {
 pub fn detach_loop(dev: &str) {
     let _ = std::process::Command::new("losetup").arg("-d").arg(dev).status();
 }
+
+
+/// Feeds `data` into a named pipe from a thread: the way a path that is not a regular
+/// file (`-i <(...)`, a device node) delivers its bytes. `finish` must be called after the
+/// consumer has exited.
+pub struct FifoFeeder {
+    pub path: PathBuf,
+    stop: std::sync::Arc<std::sync::atomic::AtomicBool>,
+    handle: Option<std::thread::JoinHandle<()>>,
+}
+
+impl FifoFeeder {
+    pub fn start(path: PathBuf, data: Vec<u8>) -> Option<FifoFeeder> {
+        let _ = std::fs::remove_file(&path);
+        let c = std::ffi::CString::new(path.to_string_lossy().as_bytes()).ok()?;
+        if unsafe { libc::mkfifo(c.as_ptr(), 0o600) } != 0 {
+            return None;
+        }
+        let stop = std::sync::Arc::new(std::sync::atomic::AtomicBool::new(false));
+        let stop2 = stop.clone();
+        let handle = std::thread::spawn(move || {
+            use std::io::Write;
+            use std::os::unix::io::FromRawFd;
+            loop {
+                // ENXIO until the consumer has opened the pipe for reading
+                let fd = unsafe { libc::open(c.as_ptr(), libc::O_WRONLY | libc::O_NONBLOCK | libc::O_CLOEXEC) };
+                if fd >= 0 {
+                    unsafe {
+                        let fl = libc::fcntl(fd, libc::F_GETFL);
+                        libc::fcntl(fd, libc::F_SETFL, fl & !libc::O_NONBLOCK);
+                    }
+                    let mut f = unsafe { std::fs::File::from_raw_fd(fd) };
+                    let _ = f.write_all(&data);
+                    return;
+                }
+                if stop2.load(std::sync::atomic::Ordering::Relaxed) {
+                    return;
+                }
+                std::thread::sleep(std::time::Duration::from_millis(2));
+            }
+        });
+        Some(FifoFeeder { path, stop, handle: Some(handle) })
+    }
+    pub fn finish(mut self) {
+        use std::os::unix::fs::OpenOptionsExt;
+        self.stop.store(true, std::sync::atomic::Ordering::Relaxed);
+        if let Some(h) = self.handle.take() {
+            if !h.is_finished() {
+                // release a feeder blocked in write() by draining the pipe ourselves
+                if let Ok(mut f) = std::fs::OpenOptions::new().read(true).custom_flags(libc::O_NONBLOCK).open(&self.path) {
+                    use std::io::Read;
+                    let mut buf = vec![0u8; 1 << 16];
+                    let t0 = std::time::Instant::now();
+                    while !h.is_finished() && t0.elapsed().as_secs() < 5 {
+                        let _ = f.read(&mut buf);
+                        std::thread::sleep(std::time::Duration::from_millis(1));
+                    }
+                }
+            }
+            let _ = h.join();
+        }
+        let _ = std::fs::remove_file(&self.path);
+    }
+}
